@@ -42,6 +42,7 @@ def scenarios(tier):
         for k in ('file', 'tree'):
             out.append({'kind': k, 'route': route, 'state': 'warm', 'var': 'then-mountpoint'})      # second argument: a mount point (its move is refused by itself)
             out.append({'kind': k, 'route': route, 'state': 'cold', 'var': 'two-volumes'})          # second argument: same name on another volume
+        out.append({'kind': 'tree', 'route': route, 'state': 'warm', 'var': 'from-inside'})             # cwd is x/sub, the argument is ../../x
     for k in ('file', 'tree', 'ldir'):
         for var in ('-f', 'one'):
             out.append({'kind': k, 'route': 'blocked', 'state': 'cold', 'var': var})                # no candidate accepts the entry: it stays, with or without -f
@@ -113,14 +114,14 @@ def command(s, ctx):
     if s['var'] == '-i':
         argv.append('-i')
         stdin = 'y\ny\n'
-    argv.append(_name(s))
+    argv.append(_name(s) if s['var'] != 'from-inside' else '../../x')
     if s['var'] == 'two':
         argv.append('y')
     if s['var'] == 'then-mountpoint':
         argv.append('/mnt/v2')
     if s['var'] == 'two-volumes':
         argv.append('/mnt/v2/w/' + _name(s))
-    return {'argv': argv, 'env': env, 'cwd': B, 'stdin': stdin, 'now': '2024-05-06T07:08:09'}
+    return {'argv': argv, 'env': env, 'cwd': B + '/x/sub' if s['var'] == 'from-inside' else B, 'stdin': stdin, 'now': '2024-05-06T07:08:09'}
 
 
 def oracle(s, ctx, start, sb, r, at):
